@@ -5,11 +5,13 @@
 package main
 
 import (
+	"encoding/json"
 	"fmt"
 	"os"
 	"path/filepath"
 	"runtime"
 	"runtime/debug"
+	"sort"
 	"strings"
 )
 
@@ -24,6 +26,10 @@ type variant struct {
 	Rule, Key string
 	// More edits applied together (cooperating sites).
 	More []edit
+	// Patch: a unified diff (a seeded change under /verif/seeded) instead of Find/Replace.
+	Patch string
+	// Rules: for patches, any new violation counts (the expectation comes from seeded/EXPECT.json).
+	AnyRule bool
 }
 
 type edit struct{ File, Find, Replace string }
@@ -42,6 +48,13 @@ type selfResult struct {
 }
 
 func applyEdits(repo string, v variant) (map[string][]byte, string) {
+	if v.Patch != "" {
+		ov, err := applyUnifiedDiff(repo, v.Patch)
+		if err != nil {
+			return nil, "patch does not apply to the current tree: " + err.Error()
+		}
+		return ov, ""
+	}
 	ov := map[string][]byte{}
 	edits := append([]edit{{v.File, v.Find, v.Replace}}, v.More...)
 	for _, e := range edits {
@@ -71,7 +84,7 @@ func runSelftests(p *propDef, repo string, base []Obligation) *selfResult {
 		}
 	}
 	only := os.Getenv("BIOCHECK_VARIANT")
-	for _, v := range selftests[p.ID] {
+	for _, v := range append(append([]variant{}, selftests[p.ID]...), seededVariants(p.ID)...) {
 		if only != "" && !strings.Contains(v.Name, only) {
 			continue
 		}
@@ -103,11 +116,11 @@ func runSelftests(p *propDef, repo string, base []Obligation) *selfResult {
 				undecided = append(undecided, o)
 			}
 		}
-		if v.Rule != "" {
+		if v.Rule != "" || v.AnyRule {
 			res.Seeded++
 			hit := false
 			for _, o := range added {
-				if o.Rule == v.Rule && strings.Contains(o.Key, v.Key) {
+				if (o.Rule == v.Rule && strings.Contains(o.Key, v.Key)) || (v.AnyRule && (v.Rule == "" || strings.HasPrefix(o.Rule, v.Rule))) {
 					hit = true
 				}
 			}
@@ -164,4 +177,41 @@ func firstLine(s string) string {
 		return s[:i]
 	}
 	return s
+}
+
+// seededVariants loads the independently seeded changes recorded under
+// <verif>/seeded whose EXPECT.json entry names this property as catching them.
+func seededVariants(prop string) []variant {
+	root := verifRoot
+	b, err := os.ReadFile(filepath.Join(root, "seeded", "EXPECT.json"))
+	if err != nil {
+		return nil
+	}
+	var exp map[string]struct {
+		CaughtBy []string `json:"caught_by"`
+		Rule     string   `json:"rule"`
+	}
+	if json.Unmarshal(b, &exp) != nil {
+		return nil
+	}
+	var ids []string
+	for id := range exp {
+		ids = append(ids, id)
+	}
+	sort.Strings(ids)
+	var out []variant
+	for _, id := range ids {
+		e := exp[id]
+		for _, q := range e.CaughtBy {
+			if q != prop {
+				continue
+			}
+			pb, err := os.ReadFile(filepath.Join(root, "seeded", id, "patch.diff"))
+			if err != nil {
+				continue
+			}
+			out = append(out, variant{Name: "seeded-" + id, Patch: string(pb), AnyRule: true, Rule: e.Rule})
+		}
+	}
+	return out
 }
